@@ -527,6 +527,17 @@ pub fn run(tier: Tier, totals: &mut Totals) {
             e.1.push(json!({"idx": 0, "sig": sig, "what": what, "replay": {"scale_registry": n}}));
         }
     }
+    {
+        totals.evals += 1;
+        totals.transitions += 1;
+        totals.traces += 1;
+        totals.nontrivial += 1;
+        if let Err((sig, what)) = guarded(spelling_registry).unwrap_or_else(|p| Err(("spelling:panic".to_string(), p))) {
+            let e = totals.failures.entry(sig.clone()).or_insert((0, vec![]));
+            e.0 += 1;
+            e.1.push(json!({"idx": 0, "sig": sig, "what": what, "replay": {"spelling_registry": true}}));
+        }
+    }
     // registry operations issued while functions are running: from a function called by another one,
     // remove / ask about the running function itself, its caller, a function that is not running, an
     // sdk command; the registry follows the operation at once and the running invocations finish
@@ -674,7 +685,55 @@ fn scale_registry(n: usize) -> Result<(), (String, String)> {
     Ok(())
 }
 
+/// A name is a name: with white space in front of or behind it, in another letter case, or with a look-alike
+/// character it is another name - for registering, looking up and removing alike. Every pair (registered
+/// spelling, asked spelling) of a small family of spellings.
+fn spelling_registry() -> Result<(), (String, String)> {
+    let err = |sig: &str, what: String| Err((format!("spelling:{}", sig), what));
+    let spellings = ["greet", "greet ", " greet", "greet\t", "greet\r", "greet\n", "greet\r\n", "greet\u{a0}", "Greet", "GREET", "gr\u{435}et", "greet::", "::greet", "gre et"];
+    for registered in spellings {
+        for as_alias in [false, true] {
+            for asked in spellings {
+                let mut c = Commands::new();
+                let cmd = if as_alias { Cmd { name: "pkg::Thing".into(), aliases: vec![registered.to_string()] } } else { Cmd { name: registered.to_string(), aliases: vec!["other".into()] } };
+                let own = cmd.name.clone();
+                if c.set(Box::new(cmd)).is_err() {
+                    return err("set-refused", format!("registering {:?} was refused", registered));
+                }
+                let same = asked == registered;
+                if c.exists(asked) != same {
+                    return err("exists", format!("{:?} registered (as {}): exists({:?}) is {}", registered, if as_alias { "an alias" } else { "a name" }, asked, !same));
+                }
+                if c.get(asked).map(|x| x.name()) != if same { Some(own.clone()) } else { None } {
+                    return err("get", format!("{:?} registered: get({:?}) gives {:?}", registered, asked, c.get(asked).map(|x| x.name())));
+                }
+                if c.get_for_use(asked).map(|x| x.name()) != if same { Some(own.clone()) } else { None } {
+                    return err("get_for_use", format!("{:?} registered: get_for_use({:?}) gives a command", registered, asked));
+                }
+                // a second command under the asked spelling is accepted iff the spelling is free
+                let second = c.set(Box::new(Cmd { name: asked.to_string(), aliases: vec![] }));
+                if second.is_ok() == (same && !as_alias) {
+                    return err("second-registration", format!("{:?} registered: a second command named {:?} was {}", registered, asked, if second.is_ok() { "accepted" } else { "refused" }));
+                }
+                if second.is_ok() {
+                    c.remove(asked);
+                }
+                if c.remove(asked) != (same && !(as_alias && second.is_ok())) && !same {
+                    return err("remove", format!("{:?} registered: remove({:?}) removed something", registered, asked));
+                }
+                if !same && !c.exists(registered) {
+                    return err("remove", format!("{:?} registered: after remove({:?}) it is gone", registered, asked));
+                }
+            }
+        }
+    }
+    Ok(())
+}
+
 pub fn replay(case: &Value) -> Result<String, String> {
+    if case.get("spelling_registry").is_some() {
+        return Ok(format!("{:?}", spelling_registry()));
+    }
     if let Some(n) = case.get("scale_registry").and_then(|v| v.as_u64()) {
         return Ok(format!("{:?}", scale_registry(n as usize)));
     }
@@ -706,7 +765,7 @@ pub fn replay(case: &Value) -> Result<String, String> {
     Ok(format!("{:?} -> {:?}", seq, run_sequence(&seq)))
 }
 
-pub const RULE: &str = "Part A: explicit-state breadth-first search to a fixpoint from the empty registry over the Rust API: set(c) for every command with name in {a,b,c} and an alias set of size <= 2 from the pool, remove/get/exists/get_for_use for every name of {a,b,c,x,y}, get_all_command_names; every transition is compared with the model (name table + alias table consulted first; an accepted registration drops an alias equal to the new name; removal drops exactly the aliases that point to the removed command): result of the call, refused registrations and lookups leave both public maps identical, every lookup of the universe agrees, no alias points to a missing command. Part B: every sequence of 1..k script-level operations (alias / unalias / remove_command / is_command_defined / fn definition / call, over the names x, y, echo and std::Echo) run as one script on the full standard library; outputs of every step and the final name and alias tables of the whole registry are compared with the same model. evaluations = transitions + scripts. Scale case: a registry of 300/3000 (thorough 30000) commands with two aliases each: every name and alias resolves to its own command, refused registrations leave no trace, removing every second command (by name or alias) leaves exactly the others. While functions run: remove_command / unalias / alias of the running function, its caller, a function that is not running and an sdk command, issued from a function called by another one: the registry follows at once and both invocations finish. The long history keeps a model of both tables (compared after every removal up to 200), with a command registered under the name of an existing alias first; sizes at the thresholds";
+pub const RULE: &str = "Part A: explicit-state breadth-first search to a fixpoint from the empty registry over the Rust API: set(c) for every command with name in {a,b,c} and an alias set of size <= 2 from the pool, remove/get/exists/get_for_use for every name of {a,b,c,x,y}, get_all_command_names; every transition is compared with the model (name table + alias table consulted first; an accepted registration drops an alias equal to the new name; removal drops exactly the aliases that point to the removed command): result of the call, refused registrations and lookups leave both public maps identical, every lookup of the universe agrees, no alias points to a missing command. Part B: every sequence of 1..k script-level operations (alias / unalias / remove_command / is_command_defined / fn definition / call, over the names x, y, echo and std::Echo) run as one script on the full standard library; outputs of every step and the final name and alias tables of the whole registry are compared with the same model. evaluations = transitions + scripts. Scale case: a registry of 300/3000 (thorough 30000) commands with two aliases each: every name and alias resolves to its own command, refused registrations leave no trace, removing every second command (by name or alias) leaves exactly the others. While functions run: remove_command / unalias / alias of the running function, its caller, a function that is not running and an sdk command, issued from a function called by another one: the registry follows at once and both invocations finish. The long history keeps a model of both tables (compared after every removal up to 200), with a command registered under the name of an existing alias first; sizes at the thresholds. Spelling registry: every ordered pair of 14 spellings of one name (white space or line ends behind / in front, other case, a Cyrillic look-alike, separators) as a command name and as an alias: exists / get / get_for_use answer for the registered spelling only, a second registration is accepted iff the spelling is free, remove of another spelling removes nothing";
 pub const ASSUMPTIONS: &[&str] = &["unalias of a name that was once created with alias removes whatever command that name resolves to now (the implementation's bookkeeping is mirrored)", "a function defined twice in one script is refused by the function table, not the registry"];
 pub const EXHAUSTIVE: bool = true;
 pub const WALL_CAP_S: (u64, u64) = (55, 1500);
